@@ -29,12 +29,15 @@ type Engine struct {
 	PPkgs   map[string]*packages.Package   // by pkg path
 	ByName  map[string][]*packages.Package // by package name
 
-	Contracts map[*ssa.Function]*Contract
-	Items     []*Contract          // in file order (funcs, lemmas)
-	SpecFuncs map[string]*SpecFunc // key pkgpath + "." + name
-	Tables    []*TableSpec
-	IfaceCons map[string]*Contract // key: types.Func FullName of interface method
-	FieldCons map[string]*Contract // key: "pkgpath.Type.field" of func-typed fields
+	Contracts      map[*ssa.Function]*Contract
+	Items          []*Contract          // in file order (funcs, lemmas)
+	SpecFuncs      map[string]*SpecFunc // key pkgpath + "." + name
+	Tables         []*TableSpec
+	IfaceCons      map[string]*Contract // key: types.Func FullName of interface method
+	FieldCons      map[string]*Contract // key: "pkgpath.Type.field" of func-typed fields
+	fieldImplCache map[string][]*ssa.Function
+	fieldImplErr   map[string]error
+	funcIDs        map[*ssa.Function]int64
 
 	Effects       map[*ssa.Function]*Effect
 	AllFuncs      []*ssa.Function
@@ -846,9 +849,54 @@ func (eng *Engine) checkArity(c *Contract, sig *types.Signature, hasRecv bool) e
 	return nil
 }
 
+var funcIDMu sync.Mutex
+
+// funcIDTerm: the integer that stands for a named function used as a value (distinct per function, never 0).
+func (eng *Engine) funcIDTerm(f *ssa.Function) *Term {
+	funcIDMu.Lock()
+	defer funcIDMu.Unlock()
+	if eng.funcIDs == nil {
+		eng.funcIDs = map[*ssa.Function]int64{}
+	}
+	id, ok := eng.funcIDs[f]
+	if !ok {
+		id = 2000000 + int64(len(eng.funcIDs))
+		eng.funcIDs[f] = id
+	}
+	return IntLit64(id)
+}
+
+// nearestPkg resolves a package name seen from package `from`: an import of `from` first, otherwise the module package of
+// that name sharing the longest path prefix with `from` (datamatrix/encoder sees datamatrix/decoder as "decoder").
+func (eng *Engine) nearestPkg(from, name string) string {
+	if pkg := eng.PPkgs[from]; pkg != nil {
+		for _, imp := range pkg.Types.Imports() {
+			if imp.Name() == name {
+				return imp.Path()
+			}
+		}
+	}
+	best, bestN := "", -1
+	for _, p := range eng.ByName[name] {
+		n := 0
+		for n < len(p.PkgPath) && n < len(from) && p.PkgPath[n] == from[n] {
+			n++
+		}
+		if n > bestN || (n == bestN && p.PkgPath < best) {
+			best, bestN = p.PkgPath, n
+		}
+	}
+	return best
+}
+
 // lookupSpecFunc resolves name (optionally qualified by package name) from the point of view of pkgPath.
 func (eng *Engine) lookupSpecFunc(fromPkg string, qual string, name string) *SpecFunc {
 	if qual != "" {
+		if pp := eng.nearestPkg(fromPkg, qual); pp != "" {
+			if sf, ok := eng.SpecFuncs[pp+"."+name]; ok {
+				return sf
+			}
+		}
 		for _, p := range eng.ByName[qual] {
 			if sf, ok := eng.SpecFuncs[p.PkgPath+"."+name]; ok {
 				return sf
